@@ -19,7 +19,8 @@ AST
 """
 import struct
 
-TYN = {"I": "INTEGER", "F": "FLOAT", "S": "STRING", "B": "BOOL", "R": "RTIME"}
+TYN = {"I": "INTEGER", "F": "FLOAT", "S": "STRING", "B": "BOOL", "R": "RTIME", "T": "TIME", "P": "IP"}
+FIELDS = ["k1", "k2"]
 SCOPES = {
     "recv": {"globals": [("req.max_stale_if_error", "R"), ("req.max_stale_while_revalidate", "R"),
                          ("req.hash_always_miss", "B"), ("req.hash_ignore_busy", "B")],
@@ -54,6 +55,7 @@ class Prog:
         self.wild = False
         self.local_ty = {}     # k -> ty
         self.stats = {}
+        self.extra_pool = []   # wild programs: sub-fields, computed variables
 
     # ---------------------------------------------------------------- names
     def name_text(self, n):
@@ -72,7 +74,7 @@ class Prog:
         out = [g for g, _ in self.globals]
         out += ["%s.http.%s" % (o, h) for o in self.objs for h in HDRS]
         out += ["re.group.%d" % j for j in range(NGROUPS)]
-        return out
+        return out + list(self.extra_pool)
 
     # ---------------------------------------------------------------- VCL text
     def pat_text(self, p):
@@ -358,6 +360,10 @@ class StoreGen:
         (isValidStatementExpression applies); cond: evaluated in condition mode."""
         r = self.r
         self._c("expr:" + ty)
+        if self.wild and r.random() < 0.3:
+            w = self.wild_expr(fr, ty, d)
+            if w is not None:
+                return w
         deep = d >= 3
         k = r.random()
         v = self.var(fr, ty)
@@ -499,8 +505,9 @@ class StoreGen:
     def set_stmt(self, fr):
         r = self.r
         k = r.random()
-        if k < 0.55 and fr["locals"]:
-            kk = r.choice(sorted(fr["locals"]))
+        core = sorted(kk for kk, t in fr["locals"].items() if t in "IFSBR")
+        if k < 0.55 and core:
+            kk = r.choice(core)
             ty, T = fr["locals"][kk], ("l", kk)
         elif k < 0.75 and self.p.globals:
             i = r.randrange(len(self.p.globals))
@@ -542,6 +549,10 @@ class StoreGen:
         k = r.random()
         if r.random() < self.errors / 25:
             return self.error_stmt(fr)
+        if self.wild and r.random() < 0.4:
+            w = self.wild_stmt(fr)
+            if w is not None:
+                return w
         if k < 0.50:
             return self.set_stmt(fr)
         if k < 0.58:
@@ -601,6 +612,13 @@ class StoreGen:
                 body.append(("decl", kk, ty, None))
                 fr["locals"][kk] = ty
                 self.p.local_ty[kk] = ty
+        if self.wild:
+            for ty in "TP":
+                if self.r.random() < (0.9 if fid == "main" else 0.3):
+                    kk = self.fresh_local()
+                    body.append(("decl", kk, ty, None))
+                    fr["locals"][kk] = ty
+                    self.p.local_ty[kk] = ty
         return fr, body
 
     def program(self):
@@ -610,6 +628,9 @@ class StoreGen:
         p.scope = r.choice(sorted(SCOPES))
         p.globals = list(SCOPES[p.scope]["globals"])
         p.objs = list(SCOPES[p.scope]["objs"])
+        if self.wild:
+            p.extra_pool = ["%s.http.%s:%s" % (o, h, f) for o in p.objs for h in HDRS[:2] for f in FIELDS]
+            p.extra_pool += ["req.url", "req.url.path", "req.url.qs", "req.method"]
         self.nlocal = 0
         callable_ = []
         for fid in range(r.choice([0, 1, 2, 2, 3])):
@@ -625,7 +646,7 @@ class StoreGen:
         fr, body = self.frame("main", [], None, callable_)
         # give the variables values first so that later statements have something to disturb
         for k in sorted(fr["locals"]):
-            if r.random() < 0.8:
+            if r.random() < 0.8 and fr["locals"][k] in "IFSBR":
                 body.append(("set", ("l", k), "=", self.lit(fr["locals"][k])))
         for o in range(len(p.objs)):
             for h in range(len(HDRS)):
@@ -638,7 +659,123 @@ class StoreGen:
 
 
 class WildGen(StoreGen):
-    """programs outside the model's fragment (direct oracle and log cross-check only)"""
+    """programs outside the model's fragment (direct oracle and log cross-check only): locals of type
+    TIME and IP, every assignment operator, cross-type assignments, header sub-fields, `add`,
+    computed variables (req.url, req.method), more built-in functions, general regular expressions"""
 
     def __init__(self, rng, **kw):
         StoreGen.__init__(self, rng, wild=True, **kw)
+
+    def lv(self, fr, ty):
+        ks = [k for k, t in fr["locals"].items() if t == ty]
+        return ("l", self.r.choice(ks)) if ks else None
+
+    def stext(self, fr):
+        """text of a STRING-valued operand"""
+        v = self.var(fr, "S")
+        if v is not None and self.r.random() < 0.7:
+            return self.p.name_text(v[1])
+        return '"%s"' % self.r.choice(WORDS).decode()
+
+    def wild_expr(self, fr, ty, d):
+        r = self.r
+        p = self.p
+        if ty == "S":
+            x = self.stext(fr)
+            iv = self.var(fr, "I")
+            c = r.choice(["regsub", "regsuball", "substr", "itoa", "strrev", "replace", "strpad", "basename", "urlencode"])
+            self._c("wexpr:" + c)
+            if c == "regsub":
+                return ("raw", 'regsub(%s, "%s", "%s")' % (x, r.choice(["b", "^a", "(.)-(.)", "[0-9]+"]), r.choice(["X", "\\1", ""])), {})
+            if c == "regsuball":
+                return ("raw", 'regsuball(%s, "%s", "%s")' % (x, r.choice(["b", "a|c", "-"]), r.choice(["Y", ""])), {})
+            if c == "substr":
+                return ("raw", "substr(%s, %d, %d)" % (x, r.randint(0, 3), r.randint(0, 4)), {})
+            if c == "itoa" and iv is not None:
+                return ("raw", "std.itoa(%s)" % p.name_text(iv[1]), {})
+            if c == "strrev":
+                return ("raw", "std.strrev(%s)" % x, {})
+            if c == "replace":
+                return ("raw", 'std.replace(%s, "%s", "%s")' % (x, r.choice(["a", "-", "b"]), r.choice(["", "zz"])), {})
+            if c == "strpad":
+                return ("raw", 'std.strpad(%s, %d, "%s")' % (x, r.randint(-6, 6), r.choice(["*", "ab"])), {})
+            if c == "basename":
+                return ("raw", "std.basename(%s)" % x, {})
+            return ("raw", "urlencode(%s)" % x, {})
+        if ty == "I":
+            self._c("wexpr:atoi")
+            iv = self.var(fr, "I")
+            arg = "std.itoa(%s)" % p.name_text(iv[1]) if (iv is not None and r.random() < 0.5) else '"%d"' % r.randint(0, 999)
+            return ("raw", "std.atoi(%s)" % arg, {})
+        if ty == "B":
+            c = r.choice(["prefixof", "regex", "strstr"])
+            self._c("wexpr:" + c)
+            if c == "prefixof":
+                return ("raw", '(std.%s(%s, "%s"))' % (r.choice(["prefixof", "suffixof"]), self.stext(fr), r.choice(["a", "c", ""])), {})
+            sv = self.vars_of(fr, "S")
+            if c == "regex" and sv:
+                return ("raw", '(%s %s "%s")' % (p.name_text(r.choice(sv)), r.choice(["~", "!~"]),
+                                                   r.choice(["^(a+)(b*)", "(.)(.)(.)", "c$", "[a-z]+-([a-z]+)"])), {"has": ["match"]})
+        return None
+
+    def wild_stmt(self, fr):
+        r = self.r
+        p = self.p
+        c = r.choice(["intop", "floatop", "cross", "cross", "field", "field", "add", "url", "time", "ip", "rtimeop"])
+        iv, fv, sv, rv = self.lv(fr, "I"), self.lv(fr, "F"), self.lv(fr, "S"), self.lv(fr, "R")
+        tv, pv = self.lv(fr, "T"), self.lv(fr, "P")
+        nt = p.name_text
+
+        def st(text, target, has=()):
+            self._c("wstmt:" + c)
+            return ("rawstmt", text, {"target": target, "has": list(has)})
+        if c == "intop" and iv:
+            op = r.choice(["*=", "/=", "%=", "|=", "&=", "^=", "<<=", ">>=", "rol=", "ror="])
+            other = self.lv(fr, "I")
+            rhs = nt(other) if (op in ("*=", "|=", "&=", "^=") and r.random() < 0.5) else str(r.randint(1, 7))
+            return st("set %s %s %s;" % (nt(iv), op, rhs), nt(iv))
+        if c == "floatop" and fv:
+            op = r.choice(["+=", "-=", "*=", "/="])
+            other = self.lv(fr, "F")
+            rhs = nt(other) if (op != "/=" and r.random() < 0.5) else r.choice(["1.500", "0.250", "3.000"])
+            return st("set %s %s %s;" % (nt(fv), op, rhs), nt(fv))
+        if c == "rtimeop" and rv:
+            op = r.choice(["-=", "+=", "*="])
+            rhs = r.choice(["5s", "100ms"]) if op != "*=" else str(r.randint(1, 4))
+            return st("set %s %s %s;" % (nt(rv), op, rhs), nt(rv))
+        if c == "cross":
+            pairs = [(iv, fv), (fv, iv), (sv, fv), (sv, tv), (sv, pv), (rv, iv), (fv, rv), (iv, rv), (sv, rv)]
+            pairs = [(a, b) for a, b in pairs if a and b]
+            if pairs:
+                a, b = r.choice(pairs)
+                return st("set %s = %s;" % (nt(a), nt(b)), nt(a))
+        if c == "field":
+            o = r.choice(p.objs)
+            n = "%s.http.%s:%s" % (o, r.choice(HDRS[:2]), r.choice(FIELDS))
+            if r.random() < 0.75:
+                return st("set %s = %s;" % (n, self.stext(fr)), n)
+            return st("unset %s;" % n, n)
+        if c == "add":
+            n = "%s.http.%s" % (r.choice(p.objs), r.choice(HDRS))
+            return st("add %s = %s;" % (n, self.stext(fr)), n)
+        if c == "url" and p.scope == "recv":
+            if r.random() < 0.7:
+                return st('set req.url = "/p%d/" %s "?a=%d&b=x";' % (r.randint(0, 9), self.stext(fr), r.randint(0, 9)), "req.url")
+            return st('set req.method = "%s";' % r.choice(["POST", "HEAD", "GET"]), "req.method")
+        if c == "time" and tv:
+            k = r.random()
+            if k < 0.4:
+                return st("set %s = now;" % nt(tv), nt(tv))
+            if k < 0.7:
+                return st("set %s %s %s;" % (nt(tv), r.choice(["+=", "-="]), r.choice(["5s", "2m"])), nt(tv))
+            if iv:
+                return st("set %s = %s;" % (nt(iv), nt(tv)), nt(iv))
+        if c == "ip" and pv:
+            k = r.random()
+            if k < 0.5:
+                return st('set %s = "%s";' % (nt(pv), r.choice(["10.0.0.1", "192.168.1.20", "2001:db8::1"])), nt(pv))
+            if k < 0.8:
+                return st("set %s = client.ip;" % nt(pv), nt(pv))
+            if sv:
+                return st("set %s = %s;" % (nt(sv), nt(pv)), nt(sv))
+        return None
